@@ -119,7 +119,63 @@ def _rt_extra():
     return out
 
 
+def _devsel_sources(t):
+    t.verif("harness/devsel/devsel.cpp")
+    for f in ["camera.c", "storage.c", "driver.c", "loader.c", "device.manager.cpp"]:
+        t.repo(CORE + "acquire-device-hal/device/hal/" + f)
+    for f in ["storage.c", "components.c", "device.c"]:
+        t.repo(CORE + "acquire-device-properties/device/props/" + f)
+    t.repo(CORE + "acquire-core-platform/linux/platform.c")
+    t.repo(CORE + "acquire-core-logger/logger.c")
+
+
+def _common_driver_sources(t):
+    for f in ["basics.driver.c", "simcams/simulated.camera.c", "simcams/imfill.pattern.cpp", "simcams/popcount.cpp",
+              "simcams/3rdParty/pcg-c-basic-0.9/pcg_basic.c", "storage/raw.c", "storage/tiff.cpp", "storage/side-by-side-tiff.cpp",
+              "storage/trash.c", "storage/basic.storage.c"]:
+        t.repo(DRV + f)
+    for f in ["storage.c", "components.c", "device.c"]:
+        t.repo(CORE + "acquire-device-properties/device/props/" + f)
+    t.repo(CORE + "acquire-core-platform/linux/platform.c")
+    t.repo(CORE + "acquire-core-logger/logger.c")
+
+
+def _devsel_extra():
+    import os
+    from vbuild import BUILD
+    out = []
+    for e, prof in (("rc", "asan"), ("rp", "asan"), ("fz", "fuzz")):
+        hd = os.path.join(BUILD, prof, "devsel_" + e, "helpers")
+        for slot in range(6):
+            t = Target("devsel_tramp%d_%s" % (slot, e), prof)
+            t.verif("engine/devsel_tramp.c", ["-DSLOT=%d" % slot])
+            t.shared = True
+            t.out = os.path.join(hd, "tramp%d.so" % slot)
+            out.append(t)
+        t = Target("devsel_noentry_" + e, prof)
+        t.verif("engine/devsel_noentry.c", ["-DNOENTRY=1"])
+        t.shared = True
+        t.out = os.path.join(hd, "noentry.so")
+        out.append(t)
+        t = Target("devsel_common_" + e, prof)
+        _common_driver_sources(t)
+        t.shared = True
+        t.out = os.path.join(hd, "common.so")
+        out.append(t)
+    return out
+
+
 HARNESSES = {
+    "devsel": {
+        "props": ["C12"],
+        "sources": _devsel_sources,
+        "engines": ["rc", "rp", "fz"],
+        "link_flags": ["-rdynamic"],
+        "extra_targets": _devsel_extra,
+        "quick": {"rc_cases": 1500, "rc_size": 30},
+        "thorough": {"rc_cases": 20000, "rc_size": 50, "fz_secs": 120},
+        "fz_max_tokens": 50,
+    },
     "rt": {
         "props": ["C04", "C05", "C06", "C07", "C08", "C09", "C10"],
         "sources": _rt_sources,
